@@ -8,12 +8,16 @@ from economic.py on every run.  All theorems hold for every network description,
 -/
 import WntrModel.Model.Metrics
 import WntrModel.Gen.Tables
+import WntrModel.Gen.MetricsFormulas
+import WntrModel.Model.MExpr
+import WntrModel.Lemmas.MetricsExpr
 import WntrModel.Lemmas.MetricsSum
 import WntrModel.Lemmas.MetricsPeriod
 import Mathlib.Tactic.Ring
 import Mathlib.Tactic.Linarith
 import Mathlib.Tactic.FieldSimp
 import Mathlib.Tactic.Positivity
+import Mathlib.Tactic.Tauto
 import Mathlib.Algebra.Order.Field.Rat
 import Mathlib.Algebra.Order.AbsoluteValue.Basic
 
@@ -385,5 +389,258 @@ example : expectedDemandPinned { step := 3600, interp := false, patternStart := 
 /-- **(repaired code) the metric is exactly what WNTRSimulator sets as expected demand at the same time** -/
 theorem expected_matches_simulator (net : DemandNet) (ds : List TS) (t : Int) :
     expectedDemand net none ds t = simDemand net ds t := rfl
+
+end Wntr.Metrics
+
+/-! ## Translator tie for the formulas
+
+`Gen/MetricsFormulas.lean` holds, for every metric function, the arithmetic that harness/props/c20_translate.py
+extracts from the CURRENT python source (ast -> `MExpr`, pandas broadcasting flattened to one time / one element).
+The theorems below prove, for ALL inputs, that the extracted term evaluates to the documented formula of
+Model/Metrics.lean (`none` exactly where the denominator vanishes or the code raises).  A sign edit, a dropped `abs`,
+head and pressure swapped, a missing reservoir / pump term … changes the generated term and breaks the theorem.
+The only hand-written glue is the naming of the inputs: the `Row`/`Env` builders next to each theorem. -/
+namespace Wntr.Metrics
+
+/-! ## the code's arithmetic (Gen/MetricsFormulas.lean, re-extracted from the python source on every run) equals the
+documented formulas -/
+
+def jRow (j : JRow) : Row := { num := fun | .demand => j.d | .head => j.h | .pressure => j.p | _ => 0 }
+def rRow (r : RRow) : Row := { num := fun | .demand => r.d | .head => r.h | _ => 0 }
+def pRow (p : PRow) : Row := { num := fun | .flowrate => p.q | .headStart => p.hs | .headEnd => p.he | _ => 0 }
+
+/-- results tables at one time, as `todini_index` reads them -/
+def todiniEnv (pstar : Rat) (js : List JRow) (rs : List RRow) (ps : List PRow) : Env :=
+  { glob := { num := fun | .Pstar => pstar | _ => 0 },
+    rows := fun | .junctions => js.map jRow | .reservoirs => rs.map rRow | .pumps => ps.map pRow | _ => [] }
+
+theorem todini_code_eq_doc (pstar : Rat) (js : List JRow) (rs : List RRow) (ps : List PRow) (row : Row) :
+    evalO (todiniEnv pstar js rs ps) row Gen.todini_index = todini pstar js rs ps := by
+  mexpr_tie [Gen.todini_index, evalO, ok, eval, todiniEnv, Function.comp_def, jRow, rRow, pRow, todini, divz]
+
+theorem wsa_code_eq_doc (env : Env) (d e : Rat) :
+    evalO env { num := fun | .demand => d | .expectedDemand => e | _ => 0 } Gen.water_service_availability = wsa d e := by
+  mexpr_tie [Gen.water_service_availability, evalO, ok, eval, wsa, divz]
+
+def pstarEnv (pstar : Rat) : Env := { glob := { num := fun | .Pstar => pstar | _ => 0 } }
+
+theorem mri_junction_code_eq_doc (pstar p z : Rat) :
+    evalO (pstarEnv pstar) { num := fun | .pressure => p | .elevation => z | _ => 0 } Gen.mri_per_junction
+      = mriJunction pstar p z := by
+  mexpr_tie [Gen.mri_per_junction, evalO, ok, eval, pstarEnv, mriJunction, divz]
+
+def mriRow (r : Rat × Rat × Rat) : Row := { num := fun | .demand => r.1 | .pressure => r.2.1 | .elevation => r.2.2 | _ => 0 }
+
+theorem mri_system_code_eq_doc (pstar : Rat) (rows : List (Rat × Rat × Rat)) (row : Row) :
+    evalO { pstarEnv pstar with rows := fun | .junctions => rows.map mriRow | _ => [] } row Gen.mri_system
+      = mriSystem pstar rows := by
+  mexpr_tie [Gen.mri_system, evalO, ok, eval, pstarEnv, mriSystem, divz, mriRow, Function.comp_def]
+
+/-- a tank as `Tank.get_volume` / `tank_capacity` / `annual_network_cost` read it -/
+def tankRow (g : TankGeom) (minLevel maxLevel curLevel x : Rat) : Row :=
+  { num := fun | .pressure => x | .level => curLevel | .maxLevel => maxLevel | .minLevel => minLevel
+               | .diameter => (match g with | .cyl d => d | .curve _ => 0) | _ => 0,
+    none := fun | .volCurve => (match g with | .cyl _ => true | .curve _ => false) | _ => false,
+    f1 := fun | .curveInterp => (match g with | .cyl _ => fun y => y | .curve pts => interp pts)
+              | .curveInterpX => (match g with | .cyl _ => fun y => y | .curve pts => interpX pts)
+              | _ => fun y => y }
+
+def pipeRow (p : Rat × Rat) : Row := { num := fun | .diameter => p.1 | .length => p.2 | _ => 0 }
+
+def piEnv (pi : Rat) : Env := { glob := { num := fun | .pi => pi | _ => 0 } }
+
+theorem tank_volume_code_eq_doc (pi : Rat) (g : TankGeom) (lo hi cur x : Rat) :
+    evalO (piEnv pi) (tankRow g lo hi cur x) Gen.tank_volume = some (tankVolume pi g x) := by
+  cases g <;> mexpr_tie [Gen.tank_volume, evalO, ok, eval, evalC, piEnv, tankRow, tankVolume]
+
+theorem tank_capacity_code_eq_doc (pi : Rat) (g : TankGeom) (lo hi cur x : Rat) :
+    evalO (piEnv pi) (tankRow g lo hi cur x) Gen.tank_capacity = tankCapacity pi g hi x := by
+  cases g <;> mexpr_tie [Gen.tank_capacity, evalO, ok, eval, evalC, piEnv, tankRow, tankCapacity, tankVolume, divz]
+
+theorem population_code_eq_doc (avg R : Rat) :
+    evalO { glob := { num := fun | .R => R | _ => 0 } } { num := fun | .averageExpectedDemand => avg | _ => 0 } Gen.population
+      = (population avg R).map fun n => (n : Rat) := by
+  mexpr_tie [Gen.population, evalO, ok, eval, population, divz]
+
+theorem population_impacted_code_eq_doc (rel : Rat → Rat → Bool) (pop a1 a2 : Rat) :
+    evalO { rel := rel } { num := fun | .pop => pop | .arg1 => a1 | .arg2 => a2 | _ => 0 } Gen.population_impacted
+      = some (populationImpacted (rel a1 a2) pop) := by
+  mexpr_tie [Gen.population_impacted, evalO, ok, eval, evalC, populationImpacted]
+
+/-- a pump at one time; `effCurve`: the pump has an efficiency curve (`pump.efficiency is not None`) -/
+def pumpRow (q hs he : Rat) (effCurve : Bool) : Row :=
+  { num := fun | .flowrate => q | .headStart => hs | .headEnd => he | _ => 0,
+    none := fun | .efficiency => !effCurve | _ => false }
+
+def energyEnv (eff dt : Rat) : Env := { glob := { num := fun | .globalEfficiency => eff | .reportTimestep => dt | _ => 0 } }
+
+theorem pump_power_code_eq_doc (q hs he eff dt : Rat) :
+    evalO (energyEnv eff dt) (pumpRow q hs he false) Gen.pump_power = pumpPower q hs he eff := by
+  mexpr_tie [Gen.pump_power, evalO, ok, eval, evalC, energyEnv, pumpRow, pumpPower, divz, rho, gAcc]
+
+theorem pump_energy_code_eq_doc (q hs he eff dt : Rat) :
+    evalO (energyEnv eff dt) (pumpRow q hs he false) Gen.pump_energy = (pumpPower q hs he eff).map (pumpEnergy · dt) := by
+  mexpr_tie [Gen.pump_energy, evalO, ok, eval, evalC, energyEnv, pumpRow, pumpPower, pumpEnergy, divz, rho, gAcc]
+
+/-- efficiency curves are not supported: the code raises -/
+theorem pump_power_efficiency_curve_raises (q hs he eff dt : Rat) :
+    evalO (energyEnv eff dt) (pumpRow q hs he true) Gen.pump_power = none := by
+  mexpr_tie [Gen.pump_power, evalO, ok, eval, evalC, energyEnv, pumpRow]
+
+def priceRow (energy : Rat) (price : Option Rat) (pricePattern : Bool) : Row :=
+  { num := fun | .energy => energy | .energyPrice => price.getD 0 | _ => 0,
+    none := fun | .energyPrice => price.isNone | .energyPattern => !pricePattern | _ => false }
+
+def priceEnv (globalPrice : Rat) (demandCharge : Option Rat) (globalPattern : Bool) : Env :=
+  { glob := { num := fun | .globalPrice => globalPrice | .demandCharge => demandCharge.getD 0 | _ => 0,
+              none := fun | .demandCharge => demandCharge.isNone | .globalPattern => !globalPattern | _ => false } }
+
+theorem pump_cost_code_eq_doc (energy gp : Rat) (price dc : Option Rat) (hdc : dc = none ∨ dc = some 0) :
+    evalO (priceEnv gp dc false) (priceRow energy price false) Gen.pump_cost = some (pumpCost energy (price.getD gp)) := by
+  rcases hdc with rfl | rfl <;> cases price <;> mexpr_tie [Gen.pump_cost, priceEnv, priceRow, pumpCost]
+
+theorem pump_cost_unsupported_raise (energy gp : Rat) (price dc : Option Rat) (pp gpat : Bool)
+    (h : pp = true ∨ gpat = true ∨ (∃ x, dc = some x ∧ x ≠ 0)) :
+    evalO (priceEnv gp dc gpat) (priceRow energy price pp) Gen.pump_cost = none := by
+  cases price <;> cases dc <;> rcases h with rfl | rfl | ⟨x, hx1, hx⟩ <;>
+    mexpr_tie [Gen.pump_cost, priceEnv, priceRow, pumpCost]
+
+def ghgEnv (t : List (Rat × Rat)) (pipes : List (Rat × Rat)) : Env :=
+  { tbl := fun | .pipeGhg => t | _ => [], rows := fun | .pipes => pipes.map pipeRow | _ => [] }
+
+theorem annual_ghg_code_eq_doc (t : List (Rat × Rat)) (pipes : List (Rat × Rat)) (row : Row) (ht : t ≠ []) :
+    evalO (ghgEnv t pipes) row Gen.annual_ghg_emissions = some (annualGhg t pipes) := by
+  mexpr_tie [Gen.annual_ghg_emissions, ghgEnv, pipeRow, annualGhg, lookup]
+
+
+/-- what `annual_network_cost` reads from the network: tanks (geometry, min, max level), pipes (diameter, length),
+head pumps (curve coefficients A, B, C), power pumps (power), valves (type, diameter) -/
+structure CostNet where
+  tanks : List (TankGeom × Rat × Rat)
+  pipes : List (Rat × Rat)
+  headPumps : List (Rat × Rat × Rat)
+  powerPumps : List Rat
+  valves : List (String × Rat)
+
+def hpRow (exp ln : Rat → Rat) (p : Rat × Rat × Rat) : Row :=
+  { num := fun | .curveA => p.1 | .curveB => p.2.1 | .curveC => p.2.2 | _ => 0,
+    f1 := fun | .exp => exp | .log => ln | _ => fun y => y }
+def ppRow (p : Rat) : Row := { num := fun | .power => p | _ => 0 }
+def valveRow (v : String × Rat) : Row := { num := fun | .diameter => v.2 | _ => 0, str := fun | .valveType => v.1 | _ => "" }
+
+def costEnv (pi eff : Rat) (t : CostTables) (exp ln : Rat → Rat) (rpow : Rat → Rat → Rat) (n : CostNet) : Env :=
+  { glob := { num := fun | .pi => pi | .globalEfficiency => eff | _ => 0 },
+    tbl := fun | .tankCost => t.tank | .pipeCost => t.pipe | .prvCost => t.prv | .pumpCost => t.pump | _ => [],
+    f2 := fun _ => rpow,
+    rows := fun | .tanks => n.tanks.map fun x => tankRow x.1 x.2.1 x.2.2 0 0
+                | .pipes => n.pipes.map pipeRow
+                | .headPumps => n.headPumps.map (hpRow exp ln)
+                | .powerPumps => n.powerPumps.map ppRow
+                | .valves => n.valves.map valveRow
+                | _ => [] }
+
+/-- the components the DOCUMENTED cost is summed over; `eff` is the number the maximum pump power is divided by -/
+def costItems (eff : Rat) (exp ln : Rat → Rat) (rpow : Rat → Rat → Rat) (n : CostNet) : List CostItem :=
+  n.tanks.map (fun x => .tank x.1 x.2.1 x.2.2) ++ n.pipes.map (fun p => .pipe p.1 p.2)
+    ++ n.headPumps.map (fun p => .pump (pmaxDoc exp ln rpow p.1 p.2.1 p.2.2 eff))
+    ++ n.powerPumps.map (fun p => .pump (p / eff))
+    ++ (n.valves.filter fun v => v.1 == "PRV").map (fun v => .prv v.2)
+
+theorem annual_network_cost_code_eq_doc (pi eff : Rat) (t : CostTables) (exp ln : Rat → Rat) (rpow : Rat → Rat → Rat)
+    (n : CostNet) (row : Row)
+    (ht : t.tank ≠ [] ∧ t.pipe ≠ [] ∧ t.prv ≠ [] ∧ t.pump ≠ []) (he : eff ≠ 0)
+    (hp : ∀ p ∈ n.headPumps, p.2.1 * (p.2.2 + 1) ≠ 0 ∧ p.2.2 ≠ 0)
+    (hk : ∀ x ∈ n.tanks, ∀ pts, x.1 = .curve pts → x.2.2 - x.2.1 ≠ 0) :
+    evalO (costEnv pi eff t exp ln rpow n) row Gen.annual_network_cost
+      = some (annualNetworkCost pi t (costItems eff exp ln rpow n)) := by
+  obtain ⟨ht1, ht2, ht3, ht4⟩ := ht
+  apply evalO_eq_some
+  · simp only [Gen.annual_network_cost, ok, eval, evalC, costEnv, List.all_map, Function.comp_def, Bool.and_eq_true,
+      List.all_eq_true, Bool.true_and, Bool.and_true, Bool.not_eq_true', decide_eq_false_iff_not, Bool.cond_eq_ite]
+    refine ⟨⟨⟨⟨?_, ?_⟩, ?_⟩, ?_⟩, ?_⟩
+    · rintro ⟨g, lo, hi⟩ hx
+      cases g with
+      | cyl d => simp [tankRow, ht1]
+      | curve pts =>
+        have h := hk _ hx pts rfl
+        simp [tankRow, ht1]
+        exact decide_eq_false h
+    · intro x _; simp [ht2]
+    · rintro ⟨a, b, c⟩ hx
+      obtain ⟨h1, h2⟩ := hp _ hx
+      simp [hpRow, ht4, he, h2]
+      simpa using h1
+    · intro x _; simp [ht4, he]
+    · intro x _; split_ifs <;> simp [ht3]
+  · simp only [Gen.annual_network_cost, eval, evalC, costEnv, costItems, annualNetworkCost, List.map_append, List.map_map,
+      lsum_append, zero_add, Function.comp_def, Bool.cond_eq_ite]
+    refine congrArg₂ (· + ·) (congrArg₂ (· + ·) (congrArg₂ (· + ·) (congrArg₂ (· + ·) ?_ ?_) ?_) ?_) ?_
+    · apply lsum_map_congr
+      rintro ⟨g, lo, hi⟩ _
+      cases g <;> simp [tankRow, itemCost, lookup, tankConstructionVolume]
+    · apply lsum_map_congr
+      intro x _; simp [pipeRow, itemCost, lookup]
+    · apply lsum_map_congr
+      rintro ⟨a, b, c⟩ _
+      simp only [hpRow, itemCost, lookup, pmaxDoc, gAcc, rho]
+      congr 3; ring
+    · apply lsum_map_congr
+      intro x _; simp [ppRow, itemCost, lookup]
+    · rw [← lsum_map_ite_filter]
+      apply lsum_map_congr
+      intro x _; simp [valveRow, itemCost, lookup]
+      split_ifs <;> simp_all
+
+/-! ### the documented efficiency of the maximum pump power (known finding `annual_network_cost-pump-efficiency`) -/
+
+def genTables : CostTables := { tank := Gen.tankCost, pipe := Gen.pipeCost, prv := Gen.prvCost, pump := Gen.pumpCost }
+
+/-- the documentation's reading of `annual_network_cost`: "eff is the global efficiency (0.75 default)" (economic.py:95),
+i.e. the stored percentage `wn.options.energy.global_efficiency` (75) taken as a fraction -/
+def AnnualCostUsesDocumentedEfficiency : Prop :=
+  ∀ (pi effPercent : Rat) (n : CostNet) (row : Row), effPercent ≠ 0 → n.headPumps = [] → n.tanks = [] →
+    evalO (costEnv pi effPercent genTables id id (fun x _ => x) n) row Gen.annual_network_cost
+      = some (annualNetworkCost pi genTables (costItems (effPercent / 100) id id (fun x _ => x) n))
+
+/-- one 20 kW power pump, global efficiency 75 (%): the code looks up 20000/75 = 267 W (2850 $/yr), the documented
+formula 20000/0.75 = 26667 W (3307 $/yr) -/
+theorem annual_network_cost_efficiency_counterexample : ¬ AnnualCostUsesDocumentedEfficiency := by
+  intro h
+  have h1 := h 3 75 { tanks := [], pipes := [], headPumps := [], powerPumps := [20000], valves := [] } {} (by decide) rfl rfl
+  rw [annual_network_cost_code_eq_doc _ _ _ _ _ _ _ _ (by decide) (by decide) (by simp) (by simp)] at h1
+  revert h1
+  decide +kernel
+
+/-- without pumps the efficiency does not enter: code and documentation agree whatever `eff` means -/
+theorem annual_network_cost_efficiency_partial (pi eff eff' : Rat) (t : CostTables) (exp ln : Rat → Rat)
+    (rpow : Rat → Rat → Rat) (n : CostNet) (row : Row)
+    (ht : t.tank ≠ [] ∧ t.pipe ≠ [] ∧ t.prv ≠ [] ∧ t.pump ≠ []) (he : eff ≠ 0)
+    (h1 : n.headPumps = []) (h2 : n.powerPumps = [])
+    (hk : ∀ x ∈ n.tanks, ∀ pts, x.1 = .curve pts → x.2.2 - x.2.1 ≠ 0) :
+    evalO (costEnv pi eff t exp ln rpow n) row Gen.annual_network_cost
+      = some (annualNetworkCost pi t (costItems eff' exp ln rpow n)) := by
+  rw [annual_network_cost_code_eq_doc pi eff t exp ln rpow n row ht he (by simp [h1]) hk]
+  simp [costItems, h1, h2]
+
+/-! ### non-vacuity: the generated terms evaluated on concrete tables -/
+
+-- one junction (d = 0.01, h = 50, p = 30), one reservoir feeding 0.01 at 60 m, one pump 0.01 m3/s with a NEGATIVE head
+-- gain 10 -> 5 m (|Δh| = 5), P* = 20:  (0.5 − 0.4) / (0.6 + 0.05 − 0.4) = 2/5
+example : evalO (todiniEnv 20 [⟨1 / 100, 50, 30⟩] [⟨-1 / 100, 60⟩] [⟨1 / 100, 10, 5⟩]) {} Gen.todini_index = some (2 / 5) := by
+  decide +kernel
+-- no pumps and no reservoirs: the denominator is −Pexp
+example : evalO (todiniEnv 20 [⟨1 / 100, 50, 30⟩] [] []) {} Gen.todini_index = some (-1 / 4) := by decide +kernel
+-- zero expected demand: no value (NaN / inf)
+example : evalO {} { num := fun | .demand => 1 | .expectedDemand => 0 | _ => 0 } Gen.water_service_availability = none := by
+  decide +kernel
+-- a closed pump (q = 0) and a pump with negative head gain: power 0 resp. negative
+example : evalO (energyEnv 75 3600) (pumpRow 0 10 40 false) Gen.pump_power = some 0 := by decide +kernel
+example : evalO (energyEnv 75 3600) (pumpRow (1 / 10) 40 30 false) Gen.pump_power = some (-13080) := by decide +kernel
+-- volume-curve tank, level above the last curve point: the last segment is continued
+example : evalO (piEnv 3) (tankRow (.curve [(0, 0), (2, 10), (4, 40)]) 0 4 0 5) Gen.tank_capacity = some (55 / 40) := by
+  decide +kernel
+-- half-to-even rounding of the population
+example : evalO { glob := { num := fun | .R => 2 | _ => 0 } } { num := fun | .averageExpectedDemand => 5 | _ => 0 }
+    Gen.population = some 2 := by decide +kernel
 
 end Wntr.Metrics
